@@ -20,6 +20,7 @@ type TraceStep struct {
 	Msgs    []sdk.Msg
 	OK      bool
 	Custom  bool // executed by a custom handler or without tx bytes: not expressible as a signed transaction
+	Bytes   []byte // the signed transaction the seam itself executed under (tracer in signing mode)
 	Dt      time.Duration
 	Height  int64                // block steps: the height whose end-block ran
 	Time    time.Time            // block steps: block time of that height
@@ -31,6 +32,71 @@ type TraceStep struct {
 type Tracer struct {
 	Steps  []TraceStep
 	Stores []string
+	// Sign makes the seam execute every router-handled transaction under the bytes of the real signed
+	// transaction (so that everything the modules derive from ctx.TxBytes() - record tx hashes, service
+	// context ids - is what the real pipeline will produce); the tracer mirrors the chain's account sequences.
+	Sign bool
+	seq  map[string]uint64
+	rnd  *rand.Rand
+}
+
+// sign builds the signed transaction for msgs, or reports that they are not expressible as one.
+func (t *Tracer) sign(e *Env, ctx sdk.Context, msgs []sdk.Msg) ([]byte, bool) {
+	if t.seq == nil {
+		t.seq = map[string]uint64{}
+		t.rnd = rand.New(rand.NewSource(1))
+	}
+	var signers []string
+	seen := map[string]bool{}
+	for _, m := range msgs {
+		ss, _, err := e.Cdc.GetMsgV1Signers(m)
+		if err != nil {
+			return nil, false
+		}
+		for _, s := range ss {
+			n := NameOf(s)
+			if n == "" {
+				return nil, false
+			}
+			if !seen[n] {
+				seen[n] = true
+				signers = append(signers, n)
+			}
+		}
+	}
+	if len(signers) == 0 {
+		return nil, false
+	}
+	var privs []cryptotypes.PrivKey
+	var nums, seqs []uint64
+	for _, n := range signers {
+		acc := e.App.AccountKeeper.GetAccount(ctx, Addr(n))
+		if acc == nil {
+			return nil, false
+		}
+		privs = append(privs, PrivKey(n))
+		nums = append(nums, acc.GetAccountNumber())
+		seqs = append(seqs, t.seq[n])
+	}
+	tx, err := simtestutil.GenSignedMockTx(t.rnd, e.App.TxConfig(), msgs, sdk.NewCoins(), 50_000_000, ChainID, nums, seqs, privs...)
+	if err != nil {
+		return nil, false
+	}
+	bz, err := e.App.TxConfig().TxEncoder()(tx)
+	if err != nil {
+		return nil, false
+	}
+	// the chain advances the sequences of a transaction's signers iff it gets past the ante handler, which is
+	// the case for every well-signed zero-fee transaction whose messages pass ValidateBasic
+	for _, m := range msgs {
+		if vb, ok := m.(hasValidateBasic); ok && vb.ValidateBasic() != nil {
+			return bz, true
+		}
+	}
+	for _, n := range signers {
+		t.seq[n]++
+	}
+	return bz, true
 }
 
 func (t *Tracer) snapshot(e *Env, ctx sdk.Context) (map[string][]KV, map[string]sdk.Coins) {
@@ -68,14 +134,19 @@ type ConformanceResult struct {
 // stores and the harness accounts' balances (except the bond denom, which x/mint inflates in the full app)
 // must equal the seam's, and every transaction's success flag must agree. A disagreement means the SEAM
 // misrepresents the implementation: it is reported as an internal error, never as a property violation.
-func Conformance(mk func() (*Env, Driver), paths [][]string, stores []string, skipDenoms map[string]bool) ConformanceResult {
+func Conformance(mk func() (*Env, Driver), paths [][]string, stores []string, skipDenoms map[string]bool, sign bool) ConformanceResult {
 	var res ConformanceResult
 	for _, path := range paths {
 		eA, dA := mk()
-		tr := &Tracer{Stores: stores}
+		tr := &Tracer{Stores: stores, Sign: sign}
 		eA.Trace = tr
 		sA, _, err := ReplayPath(eA, dA, path)
 		if err != nil {
+			if sign {
+				// op names that embed ids derived from the transaction bytes do not exist under the real bytes
+				res.Skipped++
+				continue
+			}
 			res.Mismatch = "seam replay failed: " + err.Error()
 			return res
 		}
@@ -116,6 +187,12 @@ func replayReal(e *Env, steps []TraceStep, stores []string, skipDenoms map[strin
 		if st.Kind == "tx" {
 			if st.Custom {
 				return false, "unsignable", nTx, nBlocks
+			}
+			if st.Bytes != nil {
+				pending = append(pending, st.Bytes)
+				pendingOK = append(pendingOK, st.OK)
+				pendingLabel = append(pendingLabel, st.Label)
+				continue
 			}
 			// signers in order of first appearance
 			var signers []string
